@@ -39,8 +39,8 @@ const (
 	KStruct = "struct"
 	KPtr    = "ptr"
 	KAny    = "any"
-	KRaw    = "raw"    // nbt.RawMessage
-	KNamed  = "named"  // hand-declared named types, see named.go; Name selects
+	KRaw    = "raw"   // nbt.RawMessage
+	KNamed  = "named" // hand-declared named types, see named.go; Name selects
 )
 
 type TD struct {
